@@ -581,18 +581,6 @@ def inFragment (res : Rat) (nch : Nat) (prog : List Node) : Bool :=
   !hasRepList prog && wellFormedList nch 0 prog &&
     keyInj res (touchesList prog) && separated res (touchesList prog) (plainsList prog)
 
-mutual
-/-- enough fuel for the VM on the commands of `prog`: every command of a loop body is stepped once
-per pass, plus label and jump -/
-def stepBound : Node → Nat
-  | .hold bases _ _ => bases.length + 1
-  | .rep body count => 2 * (stepBoundList body) + (count + 1) * (stepBoundList body + 2)
-  | .iter body length => stepBoundList body + 1 + length * (stepBoundList body + 1)
-def stepBoundList : List Node → Nat
-  | [] => 0
-  | n :: ns => stepBound n + stepBoundList ns
-end
-
 /-! ## Line protocol -/
 open Sexp
 
